@@ -1152,7 +1152,9 @@ func (r *RouteTable) resyncIface(nl netlinkshim.Interface, ifaceName string) err
 				"flags":       routeFilterFlags,
 			}).Error("Error listing routes")
 			r.nl.MarkHandleForReopen()
-			return nil
+			// Report the failure so that the interface stays queued for a rescan; we
+			// haven't compared the kernel's routes with ours.
+			return filteredErr
 		} else {
 			r.logCxt.WithError(filteredErr).WithField("iface", ifaceName).Debug(
 				"Failed to list routes; interface down/gone.")
